@@ -22,6 +22,8 @@ pub struct ElfSpec {
     /// extra vaddr bias: p_vaddr = p_offset + bias for every segment (0: memory and file agree)
     pub vaddr_bias: u64,
     pub data_pages: usize,
+    /// an additional, EMPTY PT_NOTE segment placed before the real one (well-formed: p_filesz == 0)
+    pub empty_first_note: bool,
 }
 
 impl ElfSpec {
@@ -39,6 +41,7 @@ impl ElfSpec {
             text: rng.bytes(text_len),
             vaddr_bias: 0,
             data_pages: 1,
+            empty_first_note: rng.chance(1, 4),
         }
     }
 }
@@ -133,6 +136,9 @@ pub fn build(spec: &ElfSpec) -> Built {
     phdrs.push((1, 4, 0, 0x1000, 0x1000, 0x1000)); // PT_LOAD r--
     phdrs.push((1, 5, text_off as u64, (text_pages * 0x1000) as u64, (text_pages * 0x1000) as u64, 0x1000)); // r-x
     phdrs.push((1, 6, data_off as u64, data_len as u64, data_len as u64, 0x1000)); // rw-
+    if spec.empty_first_note {
+        phdrs.push((4, 4, (note_off - 8) as u64, 0, 0, 4));
+    }
     if let Some(n) = &note {
         phdrs.push((4, 4, note_off as u64, n.len() as u64, n.len() as u64, 4));
     }
